@@ -154,9 +154,8 @@ def run(rep, tier, seed):
     if tier == 'quick':
         names, init_limit, max_states, gcap = ['keydoor.5x5', 'dynamic_obstacles.5x5', 'keydoor.7x7', 'teleport.5x5'], 200, 30000, 4
     else:
-        names, init_limit, max_states, gcap = ['keydoor.5x5', 'keydoor.7x7', 'keydoor.9x9', 'dynamic_obstacles.5x5',
-                                               'dynamic_obstacles.7x7', 'teleport.5x5', 'teleport.7x7',
-                                               'crossing.7x7'], 600, 100000, None
+        names, init_limit, max_states, gcap = ['keydoor.5x5', 'keydoor.7x7', 'dynamic_obstacles.5x5', 'dynamic_obstacles.7x7', 'teleport.5x5',
+                                               'teleport.7x7', 'crossing.7x7'], 400, 30000, 10
     rs, rt = dyn.run_reach(rep, names, init_limit, max_states, make_hooks, replay, 'inventory', group_cap=gcap, lineages=2 if tier == 'quick' else 3)
     rep.assume('object alphabet: all 9 concrete grid-object types with 2 colours, nested boxes; held items include a '
                'non-holdable object (the state space admits any declared type in the hand)')
